@@ -5,6 +5,7 @@
 #include <functional>
 #include <fstream>
 #include <sstream>
+#include <locale.h>
 
 namespace sim {
 
@@ -118,7 +119,16 @@ bool kind_relevant(const std::string& p, VKind k) {
 }
 
 // ---------------------------------------------------------------- dispatch
+// the process locale is part of the environment a deployment puts the library in (it changes <ctype.h>/<wctype.h> classification)
+static void apply_locale(int want) {
+    static int cur = -1;
+    if (want == cur) return;
+    if (!setlocale(LC_ALL, want ? "C.UTF-8" : "C") && want) setlocale(LC_ALL, "C");
+    cur = want;
+}
 static Verdict check_plan_inner(const Plan& p, Stats& st) {
+    apply_locale(p.locale);
+    if (p.locale) st.fault("environment.utf8_locale");
     if (p.property == "C15") return check_alloc(p, st);
     if (p.property == "C17" && p.extra.gets("mode") == "giant") return check_giant(p, st);
     return p.chr ? check_plan_W(p, st) : check_plan_A(p, st);
@@ -214,6 +224,11 @@ Plan generate_plan(const std::string& prop, unsigned long long vseed, unsigned l
         if (inc) {   // aim a few in-place ops at the incomplete manager too
             int im = (int)p.mgrs.size() - 1;
             for (auto& o : p.ops) if ((o.kind == OP_NORMALIZE || o.kind == OP_MAKEOWNER || o.kind == OP_FREE || o.kind == OP_FREEQL) && r.chance(300)) o.mgr = im;
+        }
+        if (r.chance(120)) {   // a manager table that was accepted before loses a member in place for one call: it must be rejected now
+            std::vector<int> elig;
+            for (int i = 1; i < (int)p.ops.size(); i++) { int k = p.ops[(size_t)i].kind; if (k == OP_PARSE || k == OP_ADDBASE || k == OP_REMOVEBASE || k == OP_NORMALIZE || k == OP_MAKEOWNER || k == OP_DISSECT || k == OP_COMPOSE_MALLOC) elig.push_back(i); }
+            if (!elig.empty()) p.ops[(size_t)r.pick(elig)].brk = r.range(1, 31);
         }
         if (r.chance(300)) {   // one run in three also sweeps the allocation failures of one call (ledger oracles only)
             std::vector<int> elig;
@@ -533,6 +548,7 @@ Plan shrink_plan(const Plan& start, const Verdict& v0, int* reruns) {
     // 3. plan level
     { Plan cand = best; if (cand.reuse != REUSE_NEVER) { cand.reuse = REUSE_NEVER; try_plan(cand); } }
     { Plan cand = best; if (cand.chr) { cand.chr = 0; try_plan(cand); } }
+    { Plan cand = best; if (cand.locale) { cand.locale = 0; try_plan(cand); } }
     { Plan cand = best; bool any = false; for (auto& m : cand.mgrs) if (m != MK_LIBC && m != MK_INCOMPLETE) { m = MK_SIM; } for (size_t i = 0; i < cand.mgrs.size(); i++) if (cand.mgrs[i] != best.mgrs[i]) any = true; if (any) try_plan(cand); }
     // schedule: drop preemptions
     for (int i = (int)best.sched_trace.size() - 2; i >= 2 && *reruns < budget; i -= 2) {
